@@ -129,8 +129,46 @@ def gen_scene(rng, tier):
     return dict(part="narrow", c1=s1, c2=s2, meta=meta, R=Rm.tolist(), t=[float(x) for x in t], s=float(s))
 
 
+def own_axes(spec):
+    """the collider's own axis directions as the floats stored in its specification (exact unit axis vectors for the
+    axis-permutation poses of the lattice stream)"""
+    out = []
+    if "pose" in spec:
+        T = np.array(spec["pose"], float)
+        out += [T[:3, k].tolist() for k in range(3)]
+    if "normal" in spec:
+        out.append(list(spec["normal"]))
+    if "axes" in spec:
+        out += [list(a) for a in spec["axes"]]
+    return out
+
+
+def gen_support_scene(rng):
+    """closed-form layer only: support function and centre of two colliders, queried along their OWN axes (exactly axial
+    directions: the degenerate arms s == 0 / zero lateral component of the support functions), the coordinate axes and a few
+    lattice / random directions"""
+    st = rng.choice(["lattice", "lattice", "lattice", "random"])
+    s1 = nw.gen_collider(rng, rng.choice(nw.KINDS), st, margin_prob=0.1)
+    s2 = nw.gen_collider(rng, rng.choice(nw.KINDS), st, margin_prob=0.1)
+    dirs = []
+    for sp in (s1, s2):
+        for a in own_axes(sp):
+            dirs.append(a)
+            dirs.append([-x for x in a])
+    dirs += [nw.rand_unit(rng, "lattice").tolist() for _ in range(2)] + [nw.rand_unit(rng).tolist()]
+    meta = dict(stream="support-" + st, kinds=[s1["kind"], s2["kind"]], L=nw.scene_scale([s1, s2]))
+    Rm, t = gen_motion(rng, far_of([s1, s2]), lattice_t=st == "lattice")
+    s = gen_scale(rng, spec_sizes(s1) + spec_sizes(s2), far_of([s1, s2]), 1e-2, 1e2)
+    return dict(part="narrow", only_support=True, c1=s1, c2=s2, meta=meta, R=Rm.tolist(), t=[float(x) for x in t], s=float(s), dirs=dirs)
+
+
 def scene_ops(scene):
     s1, s2 = scene["c1"], scene["c2"]
+    if scene.get("only_support"):
+        ops = [dict(fn="center", which=1, tag="cen1"), dict(fn="center", which=2, tag="cen2")]
+        for k, d in enumerate(scene.get("dirs", [])):
+            ops += [dict(fn="support", which=1, d=d, tag=f"sup1_{k}"), dict(fn="support", which=2, d=d, tag=f"sup2_{k}")]
+        return ops
     ops = [dict(fn="gjk_jolt"), dict(fn="gjk_original"), dict(fn="nesterov_distance"),
            dict(fn="nesterov", kw=dict(use_nesterov_acceleration=True)),
            dict(fn="isect_jolt"), dict(fn="isect_libccd"), dict(fn="isect_mpr"), dict(fn="isect_nesterov"),
@@ -165,6 +203,8 @@ def variants_of(scene):
         ("swap", s2, s1, dict(swap=True, R=I, t=z, s=1.0)),
         ("move", nw.transform_spec(s1, Rm, t), nw.transform_spec(s2, Rm, t), dict(swap=False, R=Rm, t=t, s=1.0)),
         ("scale", nw.transform_spec(s1, I, z, s), nw.transform_spec(s2, I, z, s), dict(swap=False, R=I, t=z, s=s)),
+        # the same motion applied to EXISTING colliders through update_pose (pose array overwritten in place)
+        ("update", nw.transform_spec(s1, Rm, t), nw.transform_spec(s2, Rm, t), dict(swap=False, R=Rm, t=t, s=1.0)),
     ]
 
 
@@ -186,7 +226,10 @@ def worker_cases(scene):
             ops = ops + [dict(o, swap=True, tag="same:" + op_key(o)) for o in scene_ops(scene) if o["fn"] in SAME_OBJ_SWAP
                          and "tag" not in o]
             ops = ops + [dict(o, tag="again:" + op_key(o)) for o in scene_ops(scene) if o["fn"] in AGAIN_OPS and "tag" not in o]
-        out.append(dict(c1=a, c2=b, ops=ops, same_object=bool(scene["meta"].get("same_object"))))
+        wc = dict(c1=a, c2=b, ops=ops, same_object=bool(scene["meta"].get("same_object")))
+        if name == "update":
+            wc.update(c1=scene["c1"], c2=scene["c2"], update=dict(R=scene["R"], t=scene["t"]), moved=[a, b])
+        out.append(wc)
     return out
 
 
@@ -725,14 +768,17 @@ def run(tier, seed, replay=None):
         if corpus.exists():
             for f in sorted(corpus.glob("*.json")):
                 scenes.append(json.loads(f.read_text())["case"])
-        n_nar = 230 if tier == "quick" else 2600
+        n_nar = 170 if tier == "quick" else 2000
         per_fn = 24 if tier == "quick" else 260
         if cm.os.environ.get("C12_SCENES"):            # development aid only
             n_nar, per_fn = (int(x) for x in cm.os.environ["C12_SCENES"].split(","))
         for _ in range(n_nar):
             sc = gen_scene(R.rng, tier)
-            sc["dirs"] = [nw.rand_unit(R.rng, R.rng.choice(["random", "lattice"])).tolist() for _ in range(2)]
+            sc["dirs"] = [nw.rand_unit(R.rng, R.rng.choice(["random", "lattice"])).tolist() for _ in range(2)] + \
+                [R.rng.choice(own_axes(sp) or [[1.0, 0.0, 0.0]]) for sp in (sc["c1"], sc["c2"])]
             scenes.append(sc)
+        for _ in range(n_nar):
+            scenes.append(gen_support_scene(R.rng))
         for fn in pl.FUNCS:
             for _ in range(per_fn):
                 scenes.append(gen_prim_scene(R.rng, fn))
